@@ -339,18 +339,51 @@ def run(prog, chk):
         sc = callees(f, sigcall)
         # decision table over the previous state the atomic returns: the Signal is touched exactly on the transition
         ok = bool(a) and bool(sc)
+        loads_ = [i for i in q.calls(f) if f.nodes[i].get("callee") == "Atomic::load" and "_state" in f.r(i)]
         if ok:
             for pv in (0, 1):
-                seen_, end_, _fv = fin.walk_vals(f, f.entry, {fin.key(f, a[0]): pv})
-                called = any(s_ in seen_ for s_ in sc)
-                if isinstance(end_, str) and end_.startswith("undetermined"):
-                    ok = False
-                elif called != (pv == cmpv):
-                    ok = False
+                for lv in ((0, 1) if loads_ else (None,)):
+                    val_ = {fin.key(f, a[0]): pv}
+                    if lv is not None:
+                        val_[fin.key(f, loads_[0])] = lv
+                    seen_, end_, _fv = fin.walk_vals(f, f.entry, val_)
+                    called = any(s_ in seen_ for s_ in sc)
+                    if isinstance(end_, str) and end_.startswith("undetermined"):
+                        ok = False
+                    elif called != (pv == cmpv):
+                        ok = False
         if ok:
             chk.ok("C10.d", f, "FastSignal::%s changes the state atomically and forwards only on a transition" % nm, "%s:%s" % (f.file, f.line), "dominating atom on the atomic's result", evals=2)
         else:
             chk.bad("C10.d", f, "fastsignal-" + nm, "%s:%s" % (f.file, f.line), "FastSignal::%s must update _state with %s and call %s exactly when the previous state was %d" % (nm, prim, sigcall, cmpv))
+    # C10.j: reset() clears the fast flag first and the slow Signal second; a set() in between raises the flag again and sets the Signal,
+    # which the delayed Signal::reset() then cancels - and while the flag stays raised no later set() repeats the Signal (a waiter that is
+    # already blocked sleeps for ever).  After resetting the Signal the flag has to be read again and the Signal restored when it is raised.
+    chk.rule("C10.j", "FIN: in FastSignal::reset, on the path that resets the Signal, the flag is re-read afterwards and Signal::set is called "
+                      "exactly when it is raised again (decision table over the swap's and the re-read's results)", floor=1)
+    f = fn1(prog, lambda f: f.gname == PRIV + "FastSignal::reset", "FastSignal::reset")[0]
+    sw_ = [i for i in q.calls(f) if f.nodes[i].get("callee") == "Atomic::swap" and "_state" in f.r(i)]
+    ld_ = [i for i in q.calls(f) if f.nodes[i].get("callee") == "Atomic::load" and "_state" in f.r(i)]
+    rs_, st_ = callees(f, "Signal::reset"), callees(f, "Signal::set")
+    okj, whyj = True, ""
+    if not sw_ or not rs_:
+        okj, whyj = False, "the swap of _state / the Signal::reset call was not found"
+    elif not ld_ or not all(q.reaches(f, r_, l_) for r_ in rs_ for l_ in ld_):
+        okj, whyj = False, "after Signal::reset() the flag is not read again: a set() that slipped in between the swap and the reset has its signal cancelled for good"
+    else:
+        for lv in (0, 1):
+            seen_, end_, _fv = fin.walk_vals(f, f.entry, {fin.key(f, sw_[0]): 1, fin.key(f, ld_[0]): lv})
+            restored = any(s_ in seen_ for s_ in st_)
+            if isinstance(end_, str) and end_.startswith("undetermined"):
+                okj, whyj = False, "the outcome depends on something else (%s)" % end_
+            elif restored != bool(lv):
+                okj, whyj = False, "with the flag re-read as %d Signal::set is %scalled" % (lv, "" if restored else "not ")
+    if okj:
+        chk.ok("C10.j", f, "reset re-reads the flag after resetting the Signal and restores the Signal when it is raised", "%s:%s" % (f.file, f.line), "decision table (swap result 1) x (re-read 0 / 1)", evals=2)
+    else:
+        chk.bad("C10.j", f, "flag-not-revalidated-after-signal-reset", "%s:%s" % (f.file, f.line),
+                "FastSignal::reset: %s - with several threads that reset and wait on one FastSignal (clients on a full queue, idle workers) a "
+                "waiter then blocks although the flag is raised, and every later set() is swallowed by the raised flag" % whyj, evals=2)
     f = fn1(prog, lambda f: f.gname == PRIV + "FastSignal::wait", "FastSignal::wait")[0]
     ld = [i for i in q.calls(f) if f.nodes[i].get("callee") == "Atomic::load"]
     sw = callees(f, "Signal::wait")
